@@ -32,14 +32,16 @@ INVARIANT ReadOnlyForever
 INVARIANT RefusalsChangeNoValue
 CHECK_DEADLOCK FALSE
 """
-def cfg(name, comment, N, NVal, NGrid, MaxDepth, MaxLevel, keeps, acts, tree, emit=False, grid="stack", pickle="fresh", only=None):
+def cfg(name, comment, N, NVal, NGrid, MaxDepth, MaxLevel, keeps, acts, tree, emit=False, grid="stack", pickle="fresh", only=None,
+        dbserial="max", dbcls="McDbCls", copycls="McAllCls", calls="McCallsOf"):
     s = "\\* %s\n" % comment
     s += 'CONSTANTS N = %d  Par = {"p", "q"}  NVal = %d  NGrid = %d  MaxDepth = %d  MaxLevel = %d\n' % (N, NVal, NGrid, MaxDepth, MaxLevel)
-    s += '          GridSlot = "%s"  PickleSerial = "%s"\n' % (grid, pickle)
+    s += '          GridSlot = "%s"  PickleSerial = "%s"  DbSerial = "%s"\n' % (grid, pickle, dbserial)
     s += "CONSTANTS Keeps <- %s  Acts <- %s  Parent0 <- Parent%s  Cls0 <- Cls%s\n" % (keeps, acts, tree, tree)
     s += "          ParOf <- McParOf  GridCls <- McGridCls  MatCls <- McMatCls\n"
+    s += "          DbCls <- %s  CopyCls <- %s  CallsOf <- %s\n" % (dbcls, copycls, calls)
     if emit:
-        s += "ACTION_CONSTRAINT Emit\n"
+        s += "ACTION_CONSTRAINT %s\n" % (emit if isinstance(emit, str) else "Emit")
     if only:
         s += "INIT Init\nNEXT Next\nCONSTRAINT Bound\n" + "".join("INVARIANT %s\n" % i for i in only) + "CHECK_DEADLOCK FALSE\n"
     else:
@@ -66,6 +68,13 @@ TABLE = [
     {'name': 'RetainState_mcP2_thorough.cfg', 'comment': 'exhaustive, parameters focus, deep: block > component, nesting 3, 6 actions (thorough)', 'N': 2, 'NVal': 2, 'NGrid': 2, 'MaxDepth': 3, 'MaxLevel': 7, 'keeps': 'KeepsSmall', 'acts': 'ActsParams', 'tree': 'D'},
     {'name': 'RetainState_asbuilt_grid.cfg', 'comment': 'the grid backup AS BUILT (one slot): TLC must refute ExitRestoresGrid (selftest only; no VIEW: as built the snapshots are not determined by the backups)', 'N': 2, 'NVal': 2, 'NGrid': 2, 'MaxDepth': 2, 'MaxLevel': 7, 'keeps': 'KeepsNone', 'acts': 'ActsAsBuilt', 'tree': 'D', 'grid': 'single', 'pickle': 'fresh', 'only': ['ExitRestoresGrid']},
     {'name': 'RetainState_asbuilt_serial.cfg', 'comment': 'pickle AS BUILT (the copy keeps the serial): TLC must refute SerialsUnique (selftest only)', 'N': 4, 'NVal': 2, 'NGrid': 2, 'MaxDepth': 1, 'MaxLevel': 3, 'keeps': 'KeepsNone', 'acts': 'ActsAsBuilt', 'tree': 'D', 'grid': 'stack', 'pickle': 'kept', 'only': ['SerialsUnique']},
+    {'name': 'RetainState_mcD.cfg', 'comment': 'exhaustive, database focus: write / load / loadReadOnly / copies, block > component + 6 pool ids (quick)', 'N': 8, 'NVal': 2, 'NGrid': 2, 'MaxDepth': 1, 'MaxLevel': 6, 'keeps': 'KeepsNone', 'acts': 'ActsDb', 'tree': 'D'},
+    {'name': 'RetainState_mcD_thorough.cfg', 'comment': 'exhaustive, database focus, deeper (thorough)', 'N': 10, 'NVal': 2, 'NGrid': 2, 'MaxDepth': 1, 'MaxLevel': 7, 'keeps': 'KeepsNone', 'acts': 'ActsDb', 'tree': 'D'},
+    {'name': 'RetainState_emitR.cfg', 'comment': 'edge emission, read-only family: assembly > block > component made read-only, every mutator (quick + thorough)', 'N': 3, 'NVal': 2, 'NGrid': 2, 'MaxDepth': 1, 'MaxLevel': 3, 'keeps': 'KeepsNone', 'acts': 'ActsRO', 'tree': 'B', 'emit': True},
+    {'name': 'RetainState_emitR_thorough.cfg', 'comment': 'edge emission, read-only family with copies: assembly > block > 2 components + pool (thorough)', 'N': 8, 'NVal': 2, 'NGrid': 2, 'MaxDepth': 1, 'MaxLevel': 4, 'keeps': 'KeepsNone', 'acts': 'ActsRO', 'tree': 'C', 'emit': True},
+    {'name': 'RetainState_emitD.cfg', 'comment': 'edge emission, database family on the smallest test reactor: write, load, loadReadOnly, deep copies of assemblies (quick)', 'N': 42, 'NVal': 2, 'NGrid': 2, 'MaxDepth': 1, 'MaxLevel': 5, 'keeps': 'KeepsNone', 'acts': 'ActsDbR', 'tree': 'R', 'emit': 'EmitDb', 'dbcls': 'RDbCls', 'copycls': 'RCopyCls', 'calls': 'NoCalls'},
+    {'name': 'RetainState_emitD_thorough.cfg', 'comment': 'edge emission, database family on the smallest test reactor, deeper (thorough)', 'N': 54, 'NVal': 2, 'NGrid': 2, 'MaxDepth': 1, 'MaxLevel': 6, 'keeps': 'KeepsNone', 'acts': 'ActsDbR', 'tree': 'R', 'emit': 'EmitDb', 'dbcls': 'RDbCls', 'copycls': 'RCopyCls', 'calls': 'NoCalls'},
+    {'name': 'RetainState_asbuilt_dbserial.cfg', 'comment': 'Database.load setting the counter to the largest STORED serial (a seeded change): TLC must refute SerialsBelowNext (selftest only)', 'N': 8, 'NVal': 2, 'NGrid': 2, 'MaxDepth': 1, 'MaxLevel': 6, 'keeps': 'KeepsNone', 'acts': 'ActsDb', 'tree': 'D', 'dbserial': 'db', 'only': ['SerialsBelowNext', 'SerialFresh', 'SerialsUnique']},
 ]
 
 if __name__ == "__main__":
